@@ -119,10 +119,18 @@ def main(argv=None):
 def selfcheck():
     t0 = time.time()
     try:
+        # the cross-check compares the model's name facts with `symtable` on the source as written, so it
+        # runs on the un-normalised parse; the normalised model (lambda lifting, loop / dispatch normal
+        # forms) must then build as well
+        os.environ["TLSA_NO_LIFT"] = "1"
         repo = Repo()
         from .model import symtable_crosscheck
 
         probs = symtable_crosscheck(repo)
+        os.environ.pop("TLSA_NO_LIFT", None)
+        normalised = Repo()
+        if len(normalised.functions) < len(repo.functions):
+            probs.append(f"the normalised model lost functions ({len(normalised.functions)} < {len(repo.functions)})")
         if probs:
             for p in probs[:20]:
                 print("ANALYSIS-ERROR selfcheck", p)
